@@ -76,7 +76,7 @@ def _run(ctx):
         ctx.inst("C02.R1", "writer/Bank.total_%s_shares" % side, len(w) == 1, "exactly one function assigns Bank.total_%s_shares" % side, w, None)
         if len(w) == 1:
             bank_changers[w[0]] = side
-    resetters = [k for k, kinds in writers_of(prog, BALANCE, "*") if "assign" in kinds]
+    resetters = balance_resetters(prog, BALANCE)[0]
     ctx.inst("C02.R1", "writer/Balance.*", len(resetters) == 1, "exactly one function overwrites a whole Balance (the reset)", resetters, None)
     if len(bal_changers) != 2 or len(bank_changers) != 2 or len(resetters) != 1:
         return
@@ -91,7 +91,7 @@ def _run(ctx):
                    must_not=[("field", owner, ("liability_shares" if side == "asset" else "asset_shares") if k in bal_changers else ("total_liability_shares" if side == "asset" else "total_asset_shares"))],
                    loc=f.bloc(bi), what="%s.%s" % (owner.split("::")[-1], fld))
     # slots: LendingAccount.balances element assignment only in find_or_create-like function, with zero shares
-    slot_writers = [k for k, kinds in writers_of(prog, LENDACC, "balances") if "assign" in kinds]
+    slot_writers = sorted(set([k for k, kinds in writers_of(prog, LENDACC, "balances") if "assign" in kinds]) | set(balance_resetters(prog, BALANCE)[1]))
     ctx.inst("C02.R1", "writer/LendingAccount.balances", len(slot_writers) == 1, "exactly one function assigns a balance slot", slot_writers, None)
     for k in slot_writers:
         f = prog.fns[k]
